@@ -59,11 +59,19 @@ class C04(Prop):
             nodes = list(X.node_paths(t))
             k = rng.random()
             if nodes and k < 0.35:
-                p, _ = rng.choice(nodes)
+                p, pv = rng.choice(nodes)
                 sfx = rng.choice(["/zz", "[7]", "/..", "[*]", "/a", "[new()]", "/a/b", "[-9]", "[x]", "[", "]", "/*", "", "", ""])
                 xp = X.render(t, p, rng) + sfx
                 tag = "derived" if sfx else "resolves"
-                if not sfx and root == "dict" and isinstance(p[-1], str) and rng.random() < 0.35:
+                lists_here = [(q, x) for q, x in nodes if isinstance(x, list)]
+                if lists_here and rng.random() < 0.25:
+                    # an index just outside an existing list, on either side: a miss (with or without further steps)
+                    q, x = rng.choice(lists_here)
+                    ln = len(x)
+                    idx = rng.choice([ln, ln + 1, -ln - 1, -ln - 2, -2 * ln, -2 * ln - 1])
+                    xp = X.render(t, q, rng) + "[%d]" % idx + rng.choice(["", "", "/a", "[0]"])
+                    tag = "oob"
+                if tag == "resolves" and root == "dict" and isinstance(p[-1], str) and rng.random() < 0.35:
                     # up to the parent and down again through the same key: still the same existing node (dict roots:
                     # below a list root the '..' step re-resolves the found path against the item it is in and misses;
                     # the statement does not say what '..' means there, so that is not demanded)
@@ -136,6 +144,8 @@ class C04(Prop):
             return "lookup %r modified the tree" % i["xpath"]
         q = i["xpath"].startswith("?")
         if i["kind"] == 0:
+            if "raise" not in obs and case.get("tag", "").startswith("oob") and not q:
+                return "%r is out of range but item access returned %r" % (i["xpath"], X.plain(res))
             if "raise" in obs:
                 if case.get("tag", "").startswith("resolves") and not q:
                     return "%r spells an existing node but item access raised %s" % (i["xpath"], obs.get("exc"))
@@ -146,6 +156,8 @@ class C04(Prop):
             return None
         if "raise" in obs:
             return "%s raised %s" % ("get" if i["kind"] == 1 else "first", obs.get("exc"))
+        if case.get("tag", "").startswith("oob") and not q and not (isinstance(res, str) and res == X.DFLT):
+            return "%r is out of range but get/first returned %r instead of the default" % (i["xpath"], X.plain(res))
         if case.get("tag", "").startswith("resolves") and not q and isinstance(res, str) and res == X.DFLT:
             return "%r spells an existing node but get/first returned the default" % i["xpath"]
         if i.get("pred") and not q:
